@@ -302,13 +302,15 @@ def some_edge(b, nx):
     return None
 
 
-def every_iteration(b, nx, call_bb):
-    """every path from the loop body's entry back to the loop head or to a return passes call_bb"""
+def every_iteration(b, nx, call_bb, bad_targets=None):
+    """every path from the loop body's entry back to the loop head or to a return (or, when given, to one of
+    `bad_targets`) passes call_bb"""
     se = some_edge(b, nx)
     if se is None:
         return False
     r = b.reachable([se], avoid={call_bb})
-    return not (nx.bb in r or (r & set(b.return_blocks())))
+    bad = set(b.return_blocks()) if bad_targets is None else set(bad_targets)
+    return not (nx.bb in r or (r & bad))
 
 
 def r4_fanout(ctx, cfg):
